@@ -20,7 +20,7 @@ From RU Require Import Base.Prelude Base.Utf8 Base.Utf8Facts Model.AsciiSet Gen.
   Proofs.C01_EqAuthSpec Proofs.C01_EqAuthModel Proofs.C01_EqAuth Proofs.C01_EqClasses2 Proofs.C01_EqRel Proofs.C01_EqRelPath
   Proofs.C01_EqRelArms Proofs.C01_EqRelBase
   Proofs.C01_EqSpSpec Proofs.C01_EqSpPath Proofs.C01_EqSpRel Proofs.C01_EqSpModel Proofs.C01_EqSp Proofs.C01_EqAbs
-  Proofs.C01_EqSpBase
+  Proofs.C01_EqSpBase Proofs.C01_EqAsm Proofs.C01_EqShape Proofs.C01_EqCover
   Proofs.C01_EqFileSpec Proofs.C01_EqFilePath Proofs.C01_EqFileRel Proofs.C01_EqFile Proofs.C01_EqFileHost
   Proofs.C01_EqFileAsm Proofs.C01_EqFileTwo Proofs.C01_EqFileRel2.
 
@@ -427,3 +427,107 @@ Proof.
 Qed.
 
 End RelClassF.
+
+(* ================= the class theorem in the shape of the assembly: agree_good, full_base result ================= *)
+Lemma file_tail_shape_ok u r : su_scheme u = str_file -> base_shape_ok (file_tail u r) = true.
+Proof.
+  intros Hs. unfold file_tail. rewrite (shape_ok_of_shape _ _ (tail_url_shape _ _)). unfold base_shape_ok.
+  cbn [su_scheme set_path]. rewrite Hs. reflexivity.
+Qed.
+
+Section RelClassFGood.
+Variable dbg : bool.
+Variable hp hpo : list N -> result host.
+Variable hd : host -> list N.
+Variable shp : bool -> list N -> option spec_host.
+Variable shs : spec_host -> list N.
+
+Theorem class_file_rel_path_good input b sb : usv_list input -> related dbg shs b sb ->
+  spec_base_ok sb = true -> in_class_file_rel_path sb input = true ->
+  agree_good dbg shs (parse_url dbg hp hpo hd None (Some b) input) (spec_basic_url_parse shp input (Some sb))
+  /\ (forall su u, spec_basic_url_parse shp input (Some sb) = BDone su -> parse_url dbg hp hpo hd None (Some b) input = POk u ->
+        full_base dbg shs u su).
+Proof.
+  intros Hu R Hbok Hc.
+  destruct (class_file_rel_path dbg hp hpo hd shp shs input b sb Hu R Hbok Hc) as (su & HS & Hok & HA).
+  assert (base_shape_ok su = true) as Hshape.
+  { unfold in_class_file_rel_path in Hc. apply andb_true_iff in Hc. destruct Hc as [Hc Hok']. apply andb_true_iff in Hc. destruct Hc as [Hb Hsch].
+    destruct (file_base_ok_facts sb Hb) as (Hop & Hsf & _ & _ & Hlast).
+    assert (list_eqb (su_scheme sb) str_file = true) as Hf by (apply list_eqb_spec; exact Hsf).
+    assert (spec_scheme (spec_clean input) = None) as Hs by (destruct (spec_scheme (spec_clean input)); [discriminate | reflexivity]).
+    destruct (spec_clean input) as [|c t] eqn:Ecl; [discriminate Hok'|].
+    apply andb_true_iff in Hok'. destruct Hok' as [Hok' _]. apply andb_true_iff in Hok'. destruct Hok' as [Hok' _].
+    apply andb_true_iff in Hok'. destruct Hok' as [Hok' Hw]. apply andb_true_iff in Hok'. destruct Hok' as [Hok' E35].
+    apply andb_true_iff in Hok'. destruct Hok' as [Esl E63]. apply negb_true_iff in Esl, E63, E35, Hw.
+    assert (spec_basic_url_parse shp input (Some sb)
+            = BDone (file_tail (fkeep sb (removelast (Whatwg.path_segments sb)))
+                               (spath_f (c :: t) (removelast (Whatwg.path_segments sb)) []))) as HS2.
+    { apply spec_parse_of_runs. rewrite Ecl.
+      exact (runs_file_rel_path shp (c :: t) sb Hop Hf c t eq_refl Hs Esl E63 E35 Hw Hlast). }
+    rewrite HS in HS2. inversion HS2. apply file_tail_shape_ok. reflexivity. }
+  assert (agree_good dbg shs (parse_url dbg hp hpo hd None (Some b) input) (spec_basic_url_parse shp input (Some sb))) as G.
+  { rewrite HS. apply agree_good_intro; [exact HA|]. intros su' E. inversion E; subst su'. exact Hok. }
+  split; [exact G|]. intros su' u HS' HM. rewrite HS' in G. rewrite HS in HS'. inversion HS'; subst su'.
+  split; [exact (agree_good_chain dbg shs _ su u G HM) | exact Hshape].
+Qed.
+
+End RelClassFGood.
+
+(* the class theorem has no hypothesis on the host functions (no host is parsed: the host of the base is kept);
+   instance for the parser model with the host model plugged in, bases in full_base *)
+Theorem class_file_rel_path_model dbg idna : forall input b sb,
+  usv_list input -> full_base dbg spec_host_serializer b sb -> in_class_file_rel_path sb input = true ->
+  agree_good dbg spec_host_serializer
+    (parse_url dbg (host_parse idna) host_parse_opaque host_display None (Some b) input)
+    (spec_basic_url_parse (spec_host_parser idna) input (Some sb))
+  /\ (forall su u, spec_basic_url_parse (spec_host_parser idna) input (Some sb) = BDone su ->
+        parse_url dbg (host_parse idna) host_parse_opaque host_display None (Some b) input = POk u ->
+        full_base dbg spec_host_serializer u su).
+Proof.
+  intros input b sb Hu [[R Hok] _] Hc. exact (class_file_rel_path_good dbg _ _ _ _ _ input b sb Hu R Hok Hc).
+Qed.
+
+(* non-vacuity: against the parse result of file://h/tmp/x the references  y ,  a/../b?q#f ,  ../../../up  are in the
+   class (and in class 1 of Known_C01: not yet folded in); both sides give file://h/tmp/y, file://h/tmp/b?q#f,
+   file://h/up with the same ten API strings *)
+Example class_file_rel_path_nonvacuous :
+  let idna := id_idna in
+  let P base i := parse_url true (host_parse idna) host_parse_opaque host_display None base i in
+  let S sbase i := spec_basic_url_parse (spec_host_parser idna) i sbase in
+  let i1 := [121] in
+  let i2 := [97;47;46;46;47;98;63;113;35;102] in
+  let i3 := [46;46;47;46;46;47;46;46;47;117;112] in
+  match P None file_base_text, S None file_base_text with
+  | POk b, BDone sb =>
+      let ok i h := in_class_file_rel_path sb i = true /\ known_c01 (Some b) i = 1
+                    /\ match P (Some b) i, S (Some sb) i with
+                       | POk u, BDone su => q_href u = h
+                                            /\ api_of_model true u = Some (spec_api_list spec_host_serializer su)
+                       | _, _ => False end in
+      ok i1 [102;105;108;101;58;47;47;104;47;116;109;112;47;121]
+      /\ ok i2 [102;105;108;101;58;47;47;104;47;116;109;112;47;98;63;113;35;102]
+      /\ ok i3 [102;105;108;101;58;47;47;104;47;117;112]
+  | _, _ => False
+  end.
+Proof. vm_compute. repeat split. Qed.
+
+(* the exclusion "the base path does not end in a normalized drive letter" is necessary: against the parse result of
+   file:///a/C: (the two sides agree on it) the reference  x  gives file:///a/x in the Standard (shorten: the path has
+   two segments) but file:///a/C:x in parser.rs (pop_path refuses to pop "C:", and the path loop appends to the
+   segment that was left without its '/') - the mechanism of F-C01-5 through shorten_path on the base *)
+Example class_file_rel_path_exclusion_necessary :
+  let idna := id_idna in
+  let P base i := parse_url true (host_parse idna) host_parse_opaque host_display None base i in
+  let S sbase i := spec_basic_url_parse (spec_host_parser idna) i sbase in
+  let bt := [102;105;108;101;58;47;47;47;97;47;67;58] in
+  match P None bt, S None bt with
+  | POk b, BDone sb =>
+      api_of_model true b = Some (spec_api_list spec_host_serializer sb)
+      /\ file_base_ok sb = false /\ known_c01 (Some b) [120] = 1
+      /\ match P (Some b) [120], S (Some sb) [120] with
+         | POk u, BDone su => q_href u = [102;105;108;101;58;47;47;47;97;47;67;58;120]
+                              /\ get_href spec_host_serializer su = [102;105;108;101;58;47;47;47;97;47;120]
+         | _, _ => False end
+  | _, _ => False
+  end.
+Proof. vm_compute. repeat split. Qed.
